@@ -105,88 +105,37 @@ impl<'value, 'loc: 'value> EvalContext<'value, 'loc> for MockCtx {
 // U-cnf: eval_conjunction_clauses on the real generic code; leaves forced to PASS / FAIL / SKIP / Err
 // ---------------------------------------------------------------------------------------------
 
-/// leaf evaluator obeying the clause discipline (clause_post): one record, status == returned status
-fn leaf<'v>(code: &'v u8, ctx: &mut dyn EvalContext<'v, 'v>) -> Result<Status> {
-    if *code == 3 {
-        return Err(Error::MissingValue(String::new()));
-    }
-    let s = match *code {
-        0 => Status::PASS,
-        1 => Status::FAIL,
-        _ => Status::SKIP,
-    };
-    ctx.start_record("")?;
-    ctx.end_record("", RecordType::TypeBlock(s))?;
-    Ok(s)
+/// a leaf clause: its forced outcome and how often it was evaluated
+pub(crate) struct Leaf {
+    code: u8, // 0 PASS 1 FAIL 2 SKIP 3 Err
+    hits: std::cell::Cell<u8>,
 }
 
-/// the documented semantics, written independently of the code:
-/// line: PASS iff one alternative passed, FAIL iff none passed and one failed, else SKIP (alternatives after the
-/// first PASS are not evaluated; the first error in evaluation order aborts); block: FAIL iff one line failed,
-/// PASS iff none failed and one passed, else SKIP.
-/// returns (result: 0..2 or 3 = error, number of leaves evaluated)
-fn spec_cnf(lines: &[[u8; 3]; 3], nlines: usize, lens: &[usize; 3], expect: &mut [Ev; LOG], ne: &mut usize) -> u8 {
-    let mut any_fail = false;
-    let mut any_pass = false;
-    let mut i = 0;
-    while i < nlines {
-        let mut lp = false;
-        let mut lf = false;
-        let mut j = 0;
-        let mut err = false;
-        while j < lens[i] {
-            let c = lines[i][j];
-            if c == 3 {
-                err = true;
-                break;
-            }
-            expect[*ne] = Ev { depth: if lens[i] > 1 { 2 } else { 1 }, kind: 0, status: c };
-            *ne += 1;
-            if c == 0 {
-                lp = true;
-                break;
-            }
-            if c == 1 {
-                lf = true;
-            }
-            j += 1;
-        }
-        if err {
-            if lens[i] > 1 {
-                expect[*ne] = Ev { depth: 1, kind: 1, status: 1 };
-                *ne += 1;
-            }
-            return 3;
-        }
-        let ls = if lp { 0 } else if lf { 1 } else { 2 };
-        if lens[i] > 1 {
-            expect[*ne] = Ev { depth: 1, kind: 1, status: ls };
-            *ne += 1;
-        }
-        if ls == 0 {
-            any_pass = true;
-        }
-        if ls == 1 {
-            any_fail = true;
-        }
-        i += 1;
+fn leaf<'v>(l: &'v Leaf, _ctx: &mut dyn EvalContext<'v, 'v>) -> Result<Status> {
+    l.hits.set(l.hits.get() + 1);
+    match l.code {
+        0 => Ok(Status::PASS),
+        1 => Ok(Status::FAIL),
+        2 => Ok(Status::SKIP),
+        _ => Err(Error::MissingValue(String::new())),
     }
-    if any_fail { 1 } else if any_pass { 0 } else { 2 }
 }
 
-/// one concrete shape (number of lines, alternatives per line); the 4^(#leaves) leaf codes are symbolic
+/// one concrete shape (number of lines, alternatives per line); the 4^(#leaves) leaf codes are symbolic.
+/// The oracle is written from the documented semantics: a line is PASS iff one alternative passed, FAIL iff none
+/// passed and one failed, else SKIP; alternatives after the first PASS are not evaluated; the first error in
+/// evaluation order aborts; the block is FAIL iff a line failed, PASS iff none failed and one passed, else SKIP;
+/// one Disjunction record (status = line status) per multi-alternative line; records balanced.
 fn cnf_shape(nlines: usize, lens: [usize; 3]) {
-    let mut codes = [[0u8; 3]; 3];
-    let mut conj: Vec<Vec<u8>> = Vec::with_capacity(3);
+    let mut conj: Vec<Vec<Leaf>> = Vec::with_capacity(3);
     let mut i = 0;
     while i < nlines {
-        let mut line: Vec<u8> = Vec::with_capacity(3);
+        let mut line: Vec<Leaf> = Vec::with_capacity(3);
         let mut j = 0;
         while j < lens[i] {
             let c: u8 = kani::any();
             kani::assume(c <= 3);
-            codes[i][j] = c;
-            line.push(c);
+            line.push(Leaf { code: c, hits: std::cell::Cell::new(0) });
             j += 1;
         }
         conj.push(line);
@@ -194,46 +143,75 @@ fn cnf_shape(nlines: usize, lens: [usize; 3]) {
     }
     let mut ctx = MockCtx::new();
     let res = eval_conjunction_clauses(&conj, &mut ctx, leaf);
-    let mut expect = [Ev { depth: 0, kind: 0, status: 0 }; LOG];
-    let mut ne = 0usize;
-    let want = spec_cnf(&codes, nlines, &lens, &mut expect, &mut ne);
-    match &res {
-        Ok(s) => kani::assert(want == st(*s), "CNF status: block FAIL iff a line failed, PASS iff none failed and one passed, else SKIP"),
-        Err(_) => kani::assert(want == 3, "error exactly when a leaf evaluated in order raises one"),
-    }
-    kani::assert(!ctx.underflow, "no end_record without start_record");
-    kani::assert(ctx.depth == 0, "records balanced (also on the error path)");
-    kani::assert(ctx.n == ne, "one record per evaluated leaf, one Disjunction record per multi-alternative line");
-    let mut k = 0;
-    while k < LOG {
-        if k < ne {
-            kani::assert(ctx.log[k] == expect[k], "record sequence: leaves in evaluation order, Disjunction status = line status");
+
+    // oracle
+    let mut any_fail = false;
+    let mut any_pass = false;
+    let mut errored = false;
+    let mut ndisj = 0usize;
+    let mut i = 0;
+    while i < nlines {
+        let mut lp = false;
+        let mut lf = false;
+        let mut j = 0;
+        while j < lens[i] {
+            let l = &conj[i][j];
+            let evaluated = !errored && !lp;
+            kani::assert(l.hits.get() == if evaluated { 1 } else { 0 }, "each alternative is evaluated at most once, and not after a PASS of its line or after an error");
+            if evaluated {
+                match l.code {
+                    0 => lp = true,
+                    1 => lf = true,
+                    2 => {}
+                    _ => errored = true,
+                }
+            }
+            j += 1;
         }
-        k += 1;
+        let line_evaluated = lp || lf || errored || (lens[i] > 0 && conj[i][0].hits.get() == 1);
+        if line_evaluated {
+            let ls: u8 = if errored { 1 } else if lp { 0 } else if lf { 1 } else { 2 };
+            if lens[i] > 1 {
+                kani::assert(ndisj < ctx.n && ctx.log[ndisj].kind == 1 && ctx.log[ndisj].status == ls && ctx.log[ndisj].depth == 1,
+                    "one Disjunction record per multi-alternative line, status = line status (FAIL when bailing on an error)");
+                ndisj += 1;
+            }
+            if !errored {
+                if ls == 0 { any_pass = true; }
+                if ls == 1 { any_fail = true; }
+            }
+        }
+        i += 1;
+    }
+    kani::assert(ctx.n == ndisj, "no other records are written by the combinator");
+    kani::assert(!ctx.underflow && ctx.depth == 0, "records balanced (also on the error path)");
+    match &res {
+        Ok(s) => {
+            kani::assert(!errored, "an error raised by an evaluated alternative is propagated");
+            let want: u8 = if any_fail { 1 } else if any_pass { 0 } else { 2 };
+            kani::assert(st(*s) == want, "block FAIL iff a line failed, PASS iff none failed and one passed, else SKIP");
+        }
+        Err(_) => kani::assert(errored, "an error only when an evaluated alternative raised one"),
     }
     std::mem::forget(res);
     std::mem::forget(conj);
 }
 
 macro_rules! cnf_harness {
-    ($name:ident, $nlines:expr, $first_lo:expr, $first_hi:expr, $max:expr) => {
+    ($name:ident, $nlines:expr, $a:expr, $max:expr) => {
         #[cfg_attr(kani, kani::proof)]
         #[cfg_attr(kani, kani::stub(alloc::fmt::format, fmt_stub))]
         #[cfg_attr(verif_replay, test)]
         fn $name() {
             lib_only!();
-            let mut a = $first_lo;
-            while a <= $first_hi {
-                let mut b = 1usize;
-                while b <= (if $nlines >= 2 { $max } else { 1 }) {
-                    let mut c = 1usize;
-                    while c <= (if $nlines >= 3 { $max } else { 1 }) {
-                        cnf_shape($nlines, [a, b, c]);
-                        c += 1;
-                    }
-                    b += 1;
+            let mut b = 1usize;
+            while b <= (if $nlines >= 2 { $max } else { 1 }) {
+                let mut c = 1usize;
+                while c <= (if $nlines >= 3 { $max } else { 1 }) {
+                    cnf_shape($nlines, [$a, b, c]);
+                    c += 1;
                 }
-                a += 1;
+                b += 1;
             }
         }
     };
@@ -246,9 +224,12 @@ fn k_cnf_0() {
     lib_only!();
     cnf_shape(0, [1, 1, 1]);
 }
-cnf_harness!(k_cnf_1, 1usize, 1usize, 3usize, 3usize);   // 1 line, 1..3 alternatives
-cnf_harness!(k_cnf_2_22, 2usize, 1usize, 2usize, 2usize); // 2 lines, <= 2 alternatives each
-cnf_harness!(k_cnf_2_33, 2usize, 1usize, 3usize, 3usize); // 2 lines, <= 3 alternatives each
-cnf_harness!(k_cnf_3_a1, 3usize, 1usize, 1usize, 3usize); // 3 lines, first line 1 alternative, others <= 3
-cnf_harness!(k_cnf_3_a2, 3usize, 2usize, 2usize, 3usize);
-cnf_harness!(k_cnf_3_a3, 3usize, 3usize, 3usize, 3usize);
+cnf_harness!(k_cnf_1_1, 1usize, 1usize, 3usize);
+cnf_harness!(k_cnf_1_2, 1usize, 2usize, 3usize);
+cnf_harness!(k_cnf_1_3, 1usize, 3usize, 3usize);
+cnf_harness!(k_cnf_2_1, 2usize, 1usize, 3usize);
+cnf_harness!(k_cnf_2_2, 2usize, 2usize, 3usize);
+cnf_harness!(k_cnf_2_3, 2usize, 3usize, 3usize);
+cnf_harness!(k_cnf_3_1, 3usize, 1usize, 3usize);
+cnf_harness!(k_cnf_3_2, 3usize, 2usize, 3usize);
+cnf_harness!(k_cnf_3_3, 3usize, 3usize, 3usize);
